@@ -50,6 +50,7 @@ func main() {
 	profile := flag.String("profile", "mixed", "nofault|fault|mixed")
 	replay := flag.String("replay", "", "history file to execute")
 	emitHist := flag.Bool("emithist", false, "attach the history to every result")
+	deep := flag.Bool("deep", false, "deeper bounds (thorough tier): long histories")
 	stopOnFail := flag.Bool("stop", false, "stop at the first failing history")
 	flag.Parse()
 
@@ -72,7 +73,7 @@ func main() {
 	for i := *from; i < *to; i++ {
 		seed := mix(*base, i) | 1
 		p := profileFor(*profile, i)
-		h := genHistory(seed, p)
+		h := genHistory(seed, p, *deep)
 		emit(line{Ev: "start", I: i, Seed: seed, Profile: p})
 		r := runHistory(h)
 		l := line{Ev: "end", I: i, Seed: seed, Profile: p, Res: r}
